@@ -213,21 +213,38 @@ def call(fname, root, pats=None, key=None, is_case=True, is_re=False, sel=None, 
         return 'exc:' + type(e).__name__, []
 
 
-def value_of(fname, e, key, rootobj):
+def values_of(fname, e, key, rootobj):
+    """the value(s) the patterns are matched against. One value, except for a hierarchical query
+    over several roots whose hierarchies overlap: a reference below two of the roots has a name
+    relative to each of them, and which one is meant is not determined by the property."""
     if fname in HIER:
         nm = e.name
         roots = rootobj if isinstance(rootobj, list) else [rootobj]
-        best = nm
+        names = []
         for r in roots:
-            if isinstance(r, HRef) and isinstance(r.item, sdn.ir.Instance):
-                rn = r.name
-                if rn and nm.startswith(rn + '/') and len(nm) - len(rn) - 1 < len(best):
-                    best = nm[len(rn) + 1:]
-        return best
+            if isinstance(r, HRef) and isinstance(r.item, sdn.ir.Instance) and r.parent is not None:
+                prefix = r.name + '/'
+                # below r?  (compare reference chains, not only names)
+                h = e
+                while h is not None and h != r:
+                    h = h.parent
+                if h is not None and nm.startswith(prefix):
+                    names.append(nm[len(prefix):])
+            else:
+                names.append(nm)
+        out = []
+        for x in names or [nm]:
+            if x not in out:
+                out.append(x)
+        return out
     if isinstance(e, (sdn.ir.InnerPin, sdn.ir.OuterPin, sdn.ir.Wire)):
-        return ''
-    v = e[key] if key in e else ''
-    return v
+        return ['']
+    return [e[key] if key in e else '']
+
+
+def value_of(fname, e, key, rootobj):
+    vs = values_of(fname, e, key, rootobj)
+    return min(vs, key=len)
 
 
 def elem_tok(w, e):
@@ -309,9 +326,15 @@ def check_case(w, fname, roottok, sel, rec, key, patsets, policy, stats):
         if st != 'ok':
             fails.append(dict(case, clause='accepts', detail=st))
             continue
-        exp = [e for e in U if any(match_spec(value_of(fname, e, key, root), p, is_case, is_re, ci_exact) for p in pats)]
+        def selects(e, quant):
+            return quant(any(match_spec(v, p, is_case, is_re, ci_exact) for p in pats) for v in values_of(fname, e, key, root))
+        exp = [e for e in U if selects(e, all)]          # must be returned
+        may = set(e for e in U if selects(e, any))       # may be returned (differs only for ambiguous names)
         stats['expected_nonempty' if exp else 'expected_empty'] += 1
         sR, sE = set(R), set(exp)
+        if len(may) != len(sE):
+            stats['ambiguous_relative_names'] += 1
+            sE = sE | (sR & may)
         if sR != sE:
             fails.append(dict(case, clause='filter',
                               missing=sorted(elem_tok(w, e) for e in sE - sR)[:6],
